@@ -1,8 +1,70 @@
 import XmppModel.Prelude.Hex
-/-! Driver module for C10: `handle args` answers one protocol line (fields after the
-property id); `none` means the line is not understood (`!bad-op`). -/
-namespace XmppModel.Driver.C10
+import XmppModel.Model.Close
+/-! Driver for C10 (see harness/c10 for the line protocol).
 
-def handle (_args : List String) : Option String := none
+    hist <serve 0|1> <op,op,…>        -> <res,res,…> <wire items> <outClosed><inClosed> <serve result>
+    sched <kind,kind,…> <i,i,…>       -> <wire events> <per goroutine outcome>
+
+ops: c close; t1…t6 the transmit entry points; r read; m/y peer stanza (handler silent /
+handler replies); h/s handler returns a plain error / a stream error; e peer stream error;
+p peer close; g garbage; d close deadline.  kinds: c closer, s<n> sender of n items, e sendError.
+-/
+namespace XmppModel.Driver.C10
+open XmppModel XmppModel.Close
+
+def parseOp (s : String) : Option Hist.Op :=
+  match s with
+  | "c" => some .close
+  | "t1" | "t2" | "t3" | "t4" | "t5" | "t6" => some .tx
+  | "r" => some .read
+  | "m" => some .peerStanza
+  | "y" => some .peerStanzaReply
+  | "h" => some .handlerErr
+  | "s" => some .handlerStreamErr
+  | "e" => some .peerStreamErr
+  | "p" => some .peerClose
+  | "g" => some .peerGarbage
+  | "d" => some .deadline
+  | _ => none
+
+def showRes : Hist.Res → String
+  | .ok => "ok" | .closedOut => "closedout" | .closedIn => "closedin" | .na => "na"
+
+def showRet : Hist.Ret → String
+  | .running => "running" | .notStarted => "notstarted" | .nil_ => "nil" | .handlerErr => "handlererr"
+  | .streamErr => "streamerr" | .peerStreamErr => "peerstreamerr" | .garbage => "garbage"
+  | .deadline => "deadline" | .closedOut => "closedout"
+
+def showItem : Hist.Item → String
+  | .el => "el" | .close => "close"
+
+def parseKind (s : String) : Option Lts.Kind :=
+  if s == "c" then some .closer
+  else if s == "e" then some .errSender
+  else if s.startsWith "s" then (s.drop 1).toString.toNat?.map (fun n => .sender n true)
+  else none
+
+def showEv : Lts.Ev → String
+  | .data i => s!"d{i}"
+  | .close _ => "c"
+
+def showPc : Lts.Pc → String
+  | .done true => "ok" | .done false => "fail" | _ => "run"
+
+def handle (args : List String) : Option String :=
+  match args with
+  | ["hist", serve, ops] => do
+    let sv ← parseBool serve
+    let l ← mapM? parseOp (splitList ops)
+    let r := Hist.run (Hist.init sv) l
+    let s := r.1
+    pure s!"{joinList (r.2.map showRes)} {joinList (s.wire.map showItem)} {showBool s.outClosed}{showBool s.inClosed} {showRet s.serve}"
+  | ["sched", kinds, sched] => do
+    let ks ← mapM? parseKind (splitList kinds)
+    let sc ← mapM? (fun (x : String) => x.toNat?) (splitList sched)
+    let kind : Nat → Lts.Kind := fun i => match ks[i]? with | some k => k | none => .sender 0 true
+    let s := Lts.run kind Lts.init sc
+    pure s!"{joinList (s.wire.map showEv)} {joinList ((List.range ks.length).map fun i => showPc (s.pc i))}"
+  | _ => none
 
 end XmppModel.Driver.C10
